@@ -22,6 +22,26 @@ def fileTrace (m : OpenMode) (cur : Bytes) : List FileAppender.Op → List Bytes
 def expectedTrace (m : OpenMode) (pre : Option Bytes) (ops : List FileAppender.Op) : List Bytes :=
   fileTrace m (openContent m pre) ops
 
+
+/-- the statement for histories with several handles and failing encoders: the file is a plain
+concatenation, in call order, of the whole records whose append succeeded and of the foreign
+appends; a failed append contributes nothing; a newly built appender keeps everything in append
+mode and empties the file in truncate mode -/
+def fileTraceM (m : OpenMode) (cur : Bytes) : List MOp → List Bytes
+  | [] => []
+  | .append _ r none :: ops => (cur ++ encBytes r) :: fileTraceM m (cur ++ encBytes r) ops
+  | .append _ _ (some _) :: ops => cur :: fileTraceM m cur ops
+  | .foreign x :: ops => (cur ++ x) :: fileTraceM m (cur ++ x) ops
+  | .build :: ops =>
+    let c := match m with | .append => cur | .truncate => []
+    c :: fileTraceM m c ops
+  | .restart _ :: ops =>
+    let c := match m with | .append => cur | .truncate => []
+    c :: fileTraceM m c ops
+
+def expectedTraceM (m : OpenMode) (pre : Option Bytes) (ops : List MOp) : List Bytes :=
+  fileTraceM m (openContent m pre) ops
+
 /-! ### C04 — concurrent: the file is `initial ++` a merge of the threads' acknowledged sequences -/
 
 /-- backtracking matcher: can `file` be cut into whole records such that the records of every
